@@ -19,3 +19,6 @@ def run(ctx, rep):
     from ..rules import more4
     more4.rule_release_range(mod, rep)
     more4.rule_relaxed_whole(mod, rep)
+    from ..rules import more5
+    more5.rule_sched_busy(mod, rep)
+    more5.rule_await_pure(mod, rep)
